@@ -85,10 +85,36 @@ class ClashReload(object):
         return self.request
 
 
+class EditReload(object):
+    """Rewrite the configuration file - an option of the use_sockets watcher u is edited (the watcher is re-created) and a
+    second use_sockets watcher v referring to the same sockets is added - then send reloadconfig: the first workers of both
+    are 'first ones' too."""
+    label = 'reloadconfig(u edited, +v)'
+
+    def __init__(self):
+        self.request = None
+
+    def apply(self, world):
+        from props.common import write_ini
+        world.cfg_edits = getattr(world, 'cfg_edits', 0) + 1
+        ws = []
+        for n, o in world.cfg_watchers:
+            o = dict(o)
+            if n == 'u':
+                o['max_retry'] = 5 + world.cfg_edits
+                ws.append(('v', dict(o, numprocesses=1)))
+            ws.append((n, o))
+        write_ini(world.config_file, ws, sockets=list(world.cfg_sockets))
+        self.request = world.request('reloadconfig')
+        world.last_request = self.request
+        return self.request
+
+
 def alphabet(world):
     evs = []
     if getattr(world, 'cfg_sockets', None):
         evs += [ClashReload(n) for n, _ in world.cfg_sockets]
+        evs.append(EditReload())
     for n in ('u', 'p'):
         if world.watcher(n) is None:
             continue
@@ -209,7 +235,7 @@ def run(scn, ch):
                     return fd in child
                 ent = table.get(fd)
                 return fd in p.pass_fds or (not p.close_fds and ent is not None and ent[0])
-            if p.watcher == 'u':
+            if p.watcher in ('u', 'v'):
                 for name, kind, reuse in SETS[scn.sset]:
                     try:
                         fd = int(argv[argv.index('--' + name) + 1])
